@@ -8,3 +8,9 @@ GROUPS = [
           flags=["--no-malloc-may-fail"], slice=True, cut=["matrix_addrow_end"], must_fail=["reach_end", "reach_added"], functions=["ILLlib_addrow", "matrix_addrow", "matrix_addcol"], props=["C06", "C07", "C17"], assumed=[ASM]),
     # addrow/full (row/column arrays full: every array grows by 100) ran out of memory after 2576 s on the final tree and is not registered
 ]
+
+GROUPS += [
+    Group("addcol/room1", "lib_addrow.c", tus=LIB, model=MODEL, mem_gb=6, defines=["FN_addcol"], dfcc=False, unwind=18, kind="bounded", timeout=1800, namebuf=512,
+          bound="start state of addrow/room1 (2 structural columns, 1 row, arbitrary sparse layout, logical first or last, room for one more column); new column with 0..1 entries, arbitrary row index, data and possibly colliding name; no basis; loops completely unwound",
+          flags=["--no-malloc-may-fail"], slice=True, must_fail=["reach_end", "reach_added", "reach_bad_row_index"], functions=["ILLlib_addcol", "matrix_addcol"], props=["C06", "C07", "C17"], assumed=[ASM]),
+]
